@@ -77,6 +77,17 @@ pub fn run_seq(case: &Case, dir: PathBuf) -> Outcome {
             }
         }
     }
+    // C07: the committed transactions must be serialisable in an order consistent with real time
+    if violation.is_none() && case.prop == "C07" && ex.inst.is_some() {
+        if let Some(init) = ex.tx_initial.clone() {
+            let r = crate::serial::check(&init, &ex.txlog, &case.cfg.keys, &ex.model);
+            ex.stats.add("serial_orders_explored", r.explored);
+            ex.stats.add("serial_txs", ex.txlog.iter().filter(|t| t.committed == Some(true)).count() as u64);
+            if !r.ok {
+                violation = Some(Violation::new("not-serialisable", format!("no serial order consistent with real time explains the committed transactions: {}", r.explanation)));
+            }
+        }
+    }
     hash = crate::rng::mix(hash ^ ex.model.digest());
     for (k, v) in &ex.stats.c {
         hash = crate::rng::mix(hash ^ crate::rng::hash_str(k) ^ *v);
@@ -93,4 +104,520 @@ pub fn run_seq(case: &Case, dir: PathBuf) -> Outcome {
     o.nontrivial = writes > 0 && maint > 0;
     o.evals = 1 + ex.stats.c.get("cross_checks").copied().unwrap_or(0);
     o
+}
+
+fn base_case(prop: &str, seed: u64, g: &G, program: Vec<Op>, class: String) -> Case {
+    Case {
+        prop: prop.into(),
+        seed,
+        engine: Engine::Seq,
+        cfg: g.cfg.clone(),
+        program,
+        threads: vec![],
+        schedule: None,
+        fault: Fault::None,
+        class,
+    }
+}
+
+fn pick_kind(r: &mut Rng) -> DbKind {
+    match r.below(3) {
+        0 => DbKind::Plain,
+        1 => DbKind::SingleWriter,
+        _ => DbKind::Optimistic,
+    }
+}
+
+/// C04: close and reopen reproduces the same logical content
+pub fn gen_c04(tier: Tier, seed: u64) -> Case {
+    let mut r = Rng::stream(seed, "workload");
+    let n_names = r.range(1, 3) as usize;
+    let n_keys = r.range(3, 6) as usize;
+    let kind = pick_kind(&mut r);
+    let mut g = G::new(&mut r, n_names, n_keys, kind, true);
+    let cls = g.r.below(4);
+    let mix = Mix {
+        insert: 8,
+        remove: 3,
+        batch: 2,
+        clear: if cls == 1 { 4 } else { 1 },
+        ingest: if cls == 0 { 6 } else { 1 },
+        tx: 2,
+        read: 2,
+        scan: 1,
+        maint: *g.r.pick(&[0u32, 3, 8]),
+        reopen: 3,
+        ks_life: if cls == 2 { 4 } else { 0 },
+        check: 1,
+        ..Mix::zero()
+    };
+    let n_ops = match tier {
+        Tier::Quick => g.r.range(6, 30),
+        Tier::Thorough => g.r.range(6, 60),
+    } as usize;
+    let mut program = g.create_initial(n_names);
+    program.extend(g.program(n_ops, &mix));
+    program.push(Op::Reopen);
+    if g.r.chance(1, 2) {
+        program.extend(g.program(5, &mix));
+        program.push(Op::Reopen);
+    }
+    let class = ["ingest-heavy", "clear-heavy", "ks-lifecycle", "mixed"][cls as usize].to_string();
+    base_case("C04", seed, &g, program, class)
+}
+
+/// C11: after reopening, new writes supersede everything recovered
+pub fn gen_c11(tier: Tier, seed: u64) -> Case {
+    let mut r = Rng::stream(seed, "workload");
+    let n_names = r.range(1, 3) as usize;
+    let n_keys = r.range(2, 5) as usize;
+    let kind = pick_kind(&mut r);
+    let mut g = G::new(&mut r, n_names, n_keys, kind, false);
+    g.cfg.check_every = 0;
+    let mut program = g.create_initial(n_names);
+    let cycles = g.r.range(1, if tier == Tier::Quick { 3 } else { 4 });
+    let mut class = String::new();
+    for _ in 0..cycles {
+        // pre-reopen history class
+        let cls = g.r.below(7);
+        let names = ["journal-only", "tables-only", "both", "last-level", "ingested", "cleared", "tombstones-other-ks"];
+        class.push_str(names[cls as usize]);
+        class.push('/');
+        let writes = Mix { insert: 6, remove: 2, batch: 2, tx: 1, ..Mix::zero() };
+        let nw = g.r.range(2, 8) as usize;
+        match cls {
+            0 => program.extend(g.program(nw, &writes)),
+            1 => {
+                program.extend(g.program(nw, &writes));
+                program.push(Op::Quiesce);
+            }
+            2 => {
+                program.extend(g.program(nw, &writes));
+                program.push(Op::Quiesce);
+                program.extend(g.program(nw / 2 + 1, &writes));
+            }
+            3 => {
+                program.extend(g.program(nw, &writes));
+                program.push(Op::Quiesce);
+                if let Some(ks) = g.live_ks() {
+                    program.push(Op::MajorCompact { ks });
+                }
+            }
+            4 => {
+                program.extend(g.program(nw / 2, &writes));
+                if let Some(ks) = g.live_ks() {
+                    program.push(g.ingest(ks));
+                }
+            }
+            5 => {
+                program.extend(g.program(nw, &writes));
+                if let Some(ks) = g.live_ks() {
+                    program.push(Op::Clear { ks });
+                }
+                if g.r.chance(1, 2) {
+                    program.push(Op::Quiesce);
+                }
+            }
+            _ => {
+                program.extend(g.program(nw, &writes));
+                // highest seqno lives only in a tombstone of another keyspace
+                let ks = (g.exists.len() - 1) as u8;
+                let key = g.key();
+                program.push(Op::Remove { ks, key });
+            }
+        }
+        program.push(Op::Reopen);
+        // after reopen: overwrite and remove recovered keys, open a snapshot, read everything
+        let nk = g.cfg.keys.len() as u8;
+        program.push(Op::ViewOpen { slot: 0, kind: ViewKind::Snapshot });
+        for key in 0..nk {
+            if let Some(ks) = g.live_ks() {
+                match g.r.below(3) {
+                    0 => program.push(Op::Insert { ks, key, val: g.val() }),
+                    1 => program.push(Op::Remove { ks, key }),
+                    _ => {}
+                }
+                program.push(Op::Read(ReadOp::Get { ks, key }));
+            }
+        }
+        program.push(Op::ViewOpen { slot: 1, kind: ViewKind::Snapshot });
+        for s in 0..2u8 {
+            if let Some(ks) = g.live_ks() {
+                program.push(Op::ViewRead { slot: s, op: ReadOp::Scan { ks, range: RangeSpec::All, mode: ScanMode::Fwd } });
+            }
+        }
+        program.push(Op::ViewDrop { slot: 0 });
+        program.push(Op::ViewDrop { slot: 1 });
+        program.push(Op::Check);
+    }
+    base_case("C11", seed, &g, program, class)
+}
+
+/// C12: keyspaces are isolated; a deleted keyspace never comes back
+pub fn gen_c12(tier: Tier, seed: u64) -> Case {
+    let mut r = Rng::stream(seed, "workload");
+    let n_names = r.range(2, 4) as usize;
+    let n_keys = r.range(2, 4) as usize;
+    let mut g = G::new(&mut r, n_names, n_keys, DbKind::Plain, false);
+    g.cfg.check_every = *g.r.pick(&[1u32, 2, 0]);
+    let mix = Mix {
+        insert: 8,
+        remove: 2,
+        batch: 2,
+        clear: 1,
+        read: 2,
+        scan: 1,
+        maint: *g.r.pick(&[0u32, 2, 6]),
+        reopen: 3,
+        ks_life: 7,
+        check: 1,
+        ..Mix::zero()
+    };
+    let n_ops = match tier {
+        Tier::Quick => g.r.range(8, 35),
+        Tier::Thorough => g.r.range(8, 70),
+    } as usize;
+    let init = g.r.range(1, n_names as u64) as usize;
+    let mut program = g.create_initial(init);
+    program.extend(g.program(n_ops, &mix));
+    program.push(Op::Reopen);
+    // create every name again after the final reopen: nothing may leak into them
+    for i in 0..n_names {
+        program.push(Op::CreateKs { ks: i as u8 });
+    }
+    program.push(Op::Check);
+    program.push(Op::Reopen);
+    let class = format!("names{n_names}");
+    base_case("C12", seed, &g, program, class)
+}
+
+fn gen_extra(r: &mut Rng) -> ExtraOpts {
+    fn len(r: &mut Rng) -> usize {
+        *r.pick(&[1usize, 2, 3, 7, 255])
+    }
+    let n = len(r);
+    let block_size = (0..n).map(|_| *r.pick(&[1u32, 512, 4096, 65536, 524_288])).collect();
+    let n = len(r);
+    let restart_interval = (0..n).map(|_| *r.pick(&[1u8, 2, 16, 255])).collect();
+    let n = len(r);
+    let hash_ratio = (0..n).map(|_| *r.pick(&[0.0f32, 0.5, 8.0, 1.0e9, f32::MIN_POSITIVE])).collect();
+    let mut bools = |r: &mut Rng| {
+        let n = len(r);
+        (0..n).map(|_| r.chance(1, 2)).collect::<Vec<bool>>()
+    };
+    let index_pinning = bools(r);
+    let filter_pinning = bools(r);
+    let index_partitioning = bools(r);
+    let filter_partitioning = bools(r);
+    let n = len(r);
+    let filter_policy = (0..n)
+        .map(|_| match r.below(3) {
+            0 => (0u8, 0.0f32),
+            1 => (1, *r.pick(&[0.0001f32, 0.01, 0.5])),
+            _ => (2, *r.pick(&[1.0f32, 10.0, 50.0])),
+        })
+        .collect();
+    let data_compression = bools(r);
+    let index_compression = bools(r);
+    ExtraOpts {
+        block_size,
+        restart_interval,
+        hash_ratio,
+        index_pinning,
+        filter_pinning,
+        index_partitioning,
+        filter_partitioning,
+        filter_policy,
+        data_compression,
+        index_compression,
+        expect_point_read_hits: r.chance(1, 2),
+    }
+}
+
+pub fn gen_c16_opts(r: &mut Rng) -> KsOpts {
+    let mut o = crate::gen::gen_ks_opts(r);
+    o.max_memtable = *r.pick(&[0u64, 1, 1024, 1 << 20, u64::MAX, 1 << 40]);
+    o.manual_persist = r.chance(1, 3);
+    if r.chance(1, 4) {
+        o.strategy = Strategy::Fifo { limit: *r.pick(&[1u64, 1 << 30, u64::MAX]) };
+    } else if r.chance(1, 2) {
+        let n = *r.pick(&[1usize, 2, 6]);
+        o.strategy = Strategy::Leveled {
+            l0: *r.pick(&[1u8, 2, 4, 8, 255]),
+            target: *r.pick(&[1u64, 1 << 10, 64 << 20, u64::MAX / 512]),
+            ratios: (0..n).map(|_| *r.pick(&[2.0f32, 10.0, 1.5, 1000.0])).collect(),
+        };
+    }
+    if r.chance(2, 3) {
+        o.extra = Some(gen_extra(r));
+    }
+    o
+}
+
+/// C16: options chosen at creation stay in force
+pub fn gen_c16(tier: Tier, seed: u64) -> Case {
+    let mut r = Rng::stream(seed, "workload");
+    let n_names = r.range(1, 3) as usize;
+    let kind = pick_kind(&mut r);
+    let mut g = G::new(&mut r, n_names, 3, kind, false);
+    g.cfg.check_every = 0;
+    for i in 0..n_names {
+        g.cfg.opts[i] = gen_c16_opts(g.r);
+    }
+    let mut program = vec![];
+    let mut created = vec![false; n_names];
+    let steps = g.r.range(4, if tier == Tier::Quick { 12 } else { 24 });
+    for _ in 0..steps {
+        let i = g.r.usize(n_names);
+        match g.r.below(6) {
+            0 | 1 => {
+                created[i] = true;
+                g.exists[i] = true;
+                program.push(Op::CreateKs { ks: i as u8 });
+            }
+            2 => {
+                if created[i] {
+                    program.push(Op::OpenKsWith { ks: i as u8, opts: gen_c16_opts(g.r) });
+                }
+            }
+            3 => program.push(Op::Reopen),
+            4 => {
+                // only keyspaces whose strategy tolerates arbitrary writes get data
+                if created[i] && matches!(g.cfg.opts[i].strategy, Strategy::Leveled { l0, target, .. } if l0 >= 2 && target >= 1024)
+                    && g.cfg.opts[i].extra.is_none()
+                {
+                    program.push(Op::Insert { ks: i as u8, key: g.key(), val: g.val() });
+                }
+            }
+            _ => {
+                if created[i] && g.r.chance(1, 3) {
+                    created[i] = false;
+                    g.exists[i] = false;
+                    program.push(Op::DeleteKs { ks: i as u8 });
+                    program.push(Op::DropHandle { ks: i as u8 });
+                }
+            }
+        }
+    }
+    program.push(Op::Reopen);
+    let class = format!("{:?}", kind);
+    let mut c = base_case("C16", seed, &g, program, class);
+    c.cfg.rotation_threshold = 0;
+    c
+}
+
+/// C18: compaction filters act only where assigned
+pub fn gen_c18(tier: Tier, seed: u64) -> Case {
+    let mut r = Rng::stream(seed, "workload");
+    let n_names = r.range(2, 4) as usize;
+    let mut g = G::new(&mut r, n_names, 6, DbKind::Plain, false);
+    // keys covering all three verdicts: first byte % 3 -> a=1 remove, b=2 replace, c=0 keep
+    g.cfg.keys = vec![b"a".to_vec(), b"ab".to_vec(), b"b".to_vec(), b"b\0".to_vec(), b"c".to_vec(), b"ca".to_vec()];
+    g.cfg.check_every = *g.r.pick(&[1u32, 2, 3]);
+    for o in &mut g.cfg.opts {
+        o.blob = None; // filter + blob replace path is exercised separately below
+    }
+    if g.r.chance(1, 4) {
+        g.cfg.opts[0].blob = Some(BlobOpts { threshold: 16, file_target: 64 << 20, staleness: 0.25, age_cutoff: 0.25, lz4: false });
+    }
+    // look-alike names: "a" filtered must not imply "ab"-like names; names table is fixed a,b,c,d
+    let mut filtered = vec![];
+    for n in g.cfg.names.clone() {
+        if g.r.chance(1, 2) {
+            filtered.push(n);
+        }
+    }
+    if filtered.is_empty() {
+        filtered.push(g.cfg.names[0].clone());
+    }
+    g.cfg.filtered = filtered;
+    let mix = Mix {
+        insert: 10,
+        remove: 2,
+        batch: 2,
+        read: 3,
+        scan: 2,
+        maint: *g.r.pick(&[6u32, 12, 24]),
+        reopen: 2,
+        check: 2,
+        ..Mix::zero()
+    };
+    let n_ops = match tier {
+        Tier::Quick => g.r.range(10, 40),
+        Tier::Thorough => g.r.range(10, 80),
+    } as usize;
+    let mut program = g.create_initial(n_names);
+    program.extend(g.program(n_ops, &mix));
+    for i in 0..n_names {
+        program.push(Op::Rotate { ks: i as u8 });
+    }
+    program.push(Op::Drain);
+    for i in 0..n_names {
+        program.push(Op::MajorCompact { ks: i as u8 });
+    }
+    program.push(Op::Check);
+    program.push(Op::Reopen);
+    for i in 0..n_names {
+        program.push(Op::MajorCompact { ks: i as u8 });
+    }
+    program.push(Op::Check);
+    let class = format!("filtered{}of{}", g.cfg.filtered.len(), n_names);
+    base_case("C18", seed, &g, program, class)
+}
+
+/// C05 (SEQ part): snapshots, read transactions and iterators are frozen in time
+pub fn gen_c05(tier: Tier, seed: u64) -> Case {
+    let mut r = Rng::stream(seed, "workload");
+    let n_names = r.range(1, 2) as usize;
+    let n_keys = r.range(3, 6) as usize;
+    let kind = pick_kind(&mut r);
+    let mut g = G::new(&mut r, n_names, n_keys, kind, false);
+    g.cfg.check_every = 0;
+    let mix = Mix {
+        insert: 8,
+        remove: 3,
+        batch: 2,
+        clear: *g.r.pick(&[0u32, 1]),
+        ingest: *g.r.pick(&[0u32, 1]),
+        view: 10,
+        iter: 8,
+        tx: 2,
+        txks: if kind == DbKind::Plain { 0 } else { 2 },
+        maint: *g.r.pick(&[2u32, 6, 12]),
+        burst: *g.r.pick(&[0u32, 1]),
+        ..Mix::zero()
+    };
+    let n_ops = match tier {
+        Tier::Quick => g.r.range(12, 45),
+        Tier::Thorough => g.r.range(12, 90),
+    } as usize;
+    let mut program = g.create_initial(n_names);
+    program.extend(g.program(n_ops, &mix));
+    // read every view that is still open once more at the end
+    for s in g.open_views.clone() {
+        if let Some(ks) = g.live_ks() {
+            program.push(Op::ViewRead { slot: s, op: ReadOp::Scan { ks, range: RangeSpec::All, mode: ScanMode::Fwd } });
+        }
+    }
+    for s in g.open_iters.clone() {
+        program.push(Op::IterStep { slot: s, n: 20, back: false });
+    }
+    let class = format!("{:?}", kind);
+    base_case("C05", seed, &g, program, class)
+}
+
+/// Interleaved transactions (C07 / C08)
+fn gen_tx_interleaved(g: &mut G, n_steps: usize, max_open: usize, helper_w: u32, outside_reads: bool, read_w: u32) -> Vec<Op> {
+    let mut ops = vec![];
+    let mut open: Vec<u8> = vec![];
+    let mut next_slot = 0u8;
+    let single = g.cfg.db_kind == DbKind::SingleWriter;
+    for _ in 0..n_steps {
+        let can_begin = open.len() < if single { 1 } else { max_open };
+        let w = [
+            if can_begin { 4 } else { 0 },
+            if open.is_empty() { 0 } else { 12 },
+            if open.is_empty() { 0 } else { 4 },
+            if single && !open.is_empty() { 0 } else { helper_w },
+            if outside_reads { 3 } else { 0 },
+            1,
+        ];
+        match g.r.weighted(&w) {
+            0 => {
+                let slot = next_slot;
+                next_slot += 1;
+                open.push(slot);
+                ops.push(Op::TxBegin { slot, dur: None });
+                // sometimes two transactions begin at the very same instant
+                if open.len() < max_open && !single && g.r.chance(1, 3) {
+                    let slot = next_slot;
+                    next_slot += 1;
+                    open.push(slot);
+                    ops.push(Op::TxBegin { slot, dur: None });
+                }
+            }
+            1 => {
+                let slot = *g.r.pick(&open);
+                let ks = g.live_ks().unwrap_or(0);
+                ops.push(Op::TxOp { slot, op: g.tx_op(ks, read_w) });
+            }
+            2 => {
+                let i = g.r.usize(open.len());
+                let slot = open.remove(i);
+                let end = match g.r.below(8) {
+                    0 => TxEnd::Rollback,
+                    1 => TxEnd::Drop,
+                    _ => TxEnd::Commit,
+                };
+                ops.push(Op::TxEnd { slot, end });
+            }
+            3 => {
+                let ks = g.live_ks().unwrap_or(0);
+                let key = g.key();
+                ops.push(match g.r.below(5) {
+                    0 => Op::TxKsInsert { ks, key, val: g.val() },
+                    1 => Op::TxKsRemove { ks, key },
+                    2 => Op::TxKsTake { ks, key },
+                    3 => Op::TxKsFetchUpdate { ks, key, f: g.updfn() },
+                    _ => Op::TxKsUpdateFetch { ks, key, f: g.updfn() },
+                });
+            }
+            4 => {
+                let ks = g.live_ks().unwrap_or(0);
+                ops.push(Op::Read(g.read_op(ks, 1)));
+            }
+            _ => ops.push(g.maintenance()),
+        }
+    }
+    for slot in open {
+        ops.push(Op::TxEnd { slot, end: TxEnd::Commit });
+    }
+    ops
+}
+
+/// C07: optimistic transactions are serialisable (SEQ: interleaved handles)
+pub fn gen_c07(tier: Tier, seed: u64) -> Case {
+    let mut r = Rng::stream(seed, "workload");
+    let n_names = r.range(1, 2) as usize;
+    let n_keys = r.range(2, 4) as usize;
+    let mut g = G::new(&mut r, n_names, n_keys, DbKind::Optimistic, false);
+    g.cfg.check_every = 0;
+    g.sizes = vec![1, 8, 24];
+    let mut program = g.create_initial(n_names);
+    // seed some data through helper ops
+    for _ in 0..g.r.range(0, 4) {
+        let ks = g.live_ks().unwrap();
+        program.push(Op::TxKsInsert { ks, key: g.key(), val: g.val() });
+    }
+    let n = match tier {
+        Tier::Quick => g.r.range(8, 28),
+        Tier::Thorough => g.r.range(8, 40),
+    } as usize;
+    let max_open = g.r.range(2, 4) as usize;
+    program.extend(gen_tx_interleaved(&mut g, n, max_open, 2, false, 3));
+    program.push(Op::Check);
+    let class = format!("open{max_open}");
+    base_case("C07", seed, &g, program, class)
+}
+
+/// C08: transaction-local semantics (SEQ part)
+pub fn gen_c08(tier: Tier, seed: u64) -> Case {
+    let mut r = Rng::stream(seed, "workload");
+    let n_names = r.range(1, 3) as usize;
+    let n_keys = r.range(2, 5) as usize;
+    let kind = if r.chance(1, 2) { DbKind::SingleWriter } else { DbKind::Optimistic };
+    let mut g = G::new(&mut r, n_names, n_keys, kind, false);
+    g.cfg.check_every = 0;
+    let mut program = g.create_initial(n_names);
+    let pre = Mix { insert: 5, remove: 1, maint: 1, ..Mix::zero() };
+    let npre = g.r.range(0, 6) as usize;
+    program.extend(g.program(npre, &pre));
+    let n = match tier {
+        Tier::Quick => g.r.range(8, 30),
+        Tier::Thorough => g.r.range(8, 60),
+    } as usize;
+    program.extend(gen_tx_interleaved(&mut g, n, 2, 1, true, 4));
+    program.push(Op::Check);
+    let class = format!("{:?}", kind);
+    base_case("C08", seed, &g, program, class)
 }
